@@ -150,6 +150,14 @@ def answer (line : String) : String :=
       "routecmds=" ++ toString (r.script.flatMap chgRouteOp).length,
       -- per-object prediction of the model (for the signatures of known finding F-C02r)
       "suppracls=" ++ ",".intercalate (suppressedAcls r),
+      -- `ios_F2_idempotent_exact`: suppressed moves of this run; compared pairs that are equal line by line / get the identity script
+      "nosuppr=" ++ (if noSupprRun r then "1" else "0"),
+      "cmppairs=" ++ toString (cmpPairs (alignVRFs a b {}).2 b).length,
+      "eqpairs=" ++ toString ((cmpPairs (alignVRFs a b {}).2 b).filter fun p => linesEqB (a.lines p.1) (b.lines p.2)).length,
+      "idpairs=" ++ toString ((cmpPairs (alignVRFs a b {}).2 b).filter fun p => identityOn (a.lines p.1) (b.lines p.2) (NA.F1.lookupD sc.acl p)).length,
+      -- IdentityDiffer on the real library: equal lists get the identity script
+      "iddiffer=" ++ (if (cmpPairs (alignVRFs a b {}).2 b).all (fun p => !linesEqB (a.lines p.1) (b.lines p.2) ||
+          identityOn (a.lines p.1) (b.lines p.2) (NA.F1.lookupD sc.acl p)) then "1" else "0"),
       "notconv=" ++ (if ex.2.isSome then "?" else ",".intercalate (predictedNotConverged b ex.1)),
       "routesconv=" ++ (if ex.2.isSome then "?" else if predictedRoutesConverged a b ex.1 then "1" else "0"),
       "final=" ++ NA.IosDev2.dump ex.1]
